@@ -382,8 +382,9 @@ class IkeSa(object):
             self.log_error('Received an unprotected message for an IKE_SA that has keys. Ignoring')
             return None
 
-        # receiving any kind of message from the peer resets the DPD timer
-        self.start_dpd_at = time.time() + self.configuration.dpd
+        # a fresh message from the peer resets the DPD timer (a copy of an old one proves nothing about the peer)
+        if message.message_id == (self.peer_msg_id if message.is_request else self.my_msg_id):
+            self.start_dpd_at = time.time() + self.configuration.dpd
         if message.is_request:
             return self._process_request(message)
         else:
